@@ -93,6 +93,44 @@ theorem C10_concat_chain_major (hs : List Holder) :
     | nil => exact absurd rfl hne
     | cons h rest => exact ⟨_, concat_eq h rest, rfl, rfl⟩
 
+/-- the invariant `add_theta` maintains (number of samples ≤ declared size) is preserved by
+`concat`, so the result is again a collection to which `C10_refusals` and `C10_load_save` apply -/
+theorem C10_concat_preserves_fit (hs : List Holder) (r : Holder) (hr : concat hs = .ok r)
+    (hfit : ∀ h ∈ hs, h.thetas.length ≤ h.size) : r.thetas.length ≤ r.size := by
+  have hne : hs ≠ [] := by rintro rfl; simp [concat] at hr
+  obtain ⟨r', h1, h2, h3⟩ := (C10_concat_chain_major hs).2 hne
+  rw [hr] at h1
+  cases h1
+  rw [h2, h3]
+  clear hr h2 h3 hne
+  induction hs with
+  | nil => simp
+  | cons h hs ih =>
+    have := hfit h (by simp)
+    have := ih (fun x hx => hfit x (by simp [hx]))
+    simp only [List.flatMap_cons, List.length_append, List.map_cons, List.sum_cons]
+    omega
+
+/-- concatenating COMPLETE per-chain collections gives a complete collection: it holds exactly
+the declared number of samples, refuses every further `add_theta`, and refuses access at index
+`size` (and at every index outside `0 .. size-1`) -/
+theorem C10_concat_complete_refuses (hs : List Holder) (hne : hs ≠ [])
+    (hc : ∀ h ∈ hs, h.isComplete = true) :
+    ∃ r, concat hs = .ok r ∧ r.thetas.length = r.size ∧
+      (∀ t, addTheta r t = .error .valueError) ∧
+      (∀ i : Int, (i < 0 ∨ i ≥ r.size) → getTheta r i = .error .valueError) := by
+  obtain ⟨r, h1, h2, h3⟩ := (C10_concat_chain_major hs).2 hne
+  have hlen : r.thetas.length = r.size := by
+    rw [h2, h3]
+    exact length_flatMap_thetas hs (fun x hx => by simpa [Holder.isComplete] using hc x hx)
+  refine ⟨r, h1, hlen, ?_, ?_⟩
+  · intro t
+    have : r.thetas.length ≥ r.size := by omega
+    simp [addTheta, this]
+  · intro i hi
+    have : i > (r.thetas.length : Int) - 1 ∨ i < 0 := by omega
+    simp [getTheta, this]
+
 /-- `evaluate_model`: for complete per-file collections, given in ANY order on the command line
 (the statement is for every list `hs`), the labelled prediction columns are exactly: for the
 `i`-th file, in order, each of its samples in step order, labelled `i`.  So column `j` carries
@@ -179,6 +217,13 @@ single-effect table, and with a declared size larger than the number of samples 
 example : Saveable ⟨3, [tC 5, tC 6]⟩ ∧ Saveable ⟨2, [tI 5, tI 6]⟩ ∧ Saveable ⟨2, [tE 1, tE 2]⟩ := by
   refine ⟨⟨by decide, ?_, ?_, by decide⟩, ⟨by decide, ?_, ?_, by decide⟩, ⟨by decide, ?_, ?_, by decide⟩⟩ <;>
     simp [SameShared, Sample.cls, Sample.table, tC, tI, tE]
+
+/-- the hypotheses of `C10_concat_complete_refuses` / `C10_chain_ids_aligned` are satisfiable with
+chains of UNEQUAL length (2 + 1 samples), and the labelled columns are then `0,0,1` -/
+example : (∀ h ∈ [(⟨2, [tC 5, tC 6]⟩ : Holder), ⟨1, [tC 7]⟩], h.isComplete = true) ∧
+    (evaluate [⟨2, [tC 5, tC 6]⟩, ⟨1, [tC 7]⟩]).toOption = some [(0, tC 5), (0, tC 6), (1, tC 7)] ∧
+    (evaluate [⟨1, [tC 7]⟩, ⟨2, [tC 5, tC 6]⟩]).toOption = some [(0, tC 7), (1, tC 5), (1, tC 6)] := by
+  decide
 
 /-- the hypothesis `same` is needed: the shared parameters are written from the first sample
 only, so a collection mixing two different single-effect tables does not survive the round trip
